@@ -68,6 +68,13 @@ pub fn runs(tier: Tier) -> Vec<(HistCfg, Caps)> {
                     Caps { max_transitions: 600_000, max_wall: Duration::from_secs(25), max_signatures: 12 },
                 ));
             }
+            // three operations in the second round on a small id set: clear followed by a refill
+            // that is large enough for the general build path (seeded change C01-f)
+            let refill = build_menu(&[Some(1), Some(2)], &[Some(1)], 1);
+            runs.push((
+                cfg(Metric::Euclidean, 2, 3, refill, vec![3, 3], obs.clone(), "euclidean-d2-refill"),
+                Caps { max_transitions: 600_000, max_wall: Duration::from_secs(15), max_signatures: 12 },
+            ));
             // below 33 dimensions every quantised split degenerates into a random one: the
             // quantised split construction itself is exercised at 64 dimensions
             let b64 = build_menu(&[None, Some(2)], &[Some(1), Some(2)], 1);
@@ -88,6 +95,11 @@ pub fn runs(tier: Tier) -> Vec<(HistCfg, Caps)> {
                         Caps { max_transitions: 40_000_000, max_wall: Duration::from_secs(60), max_signatures: 12 },
                     ));
                 }
+                let refill = build_menu(&[Some(1), Some(2)], &[Some(1), Some(2)], 1);
+                runs.push((
+                    cfg(m, 2, 4, refill, vec![4, 3], obs.clone(), &format!("{}-d2-refill", m.short())),
+                    Caps { max_transitions: 40_000_000, max_wall: Duration::from_secs(60), max_signatures: 12 },
+                ));
                 runs.push((
                     cfg(m, 2, 5, small.clone(), vec![5, 1, 1], obs.clone(), &format!("{}-d2-R3", m.short())),
                     Caps { max_transitions: 40_000_000, max_wall: Duration::from_secs(60), max_signatures: 12 },
